@@ -424,6 +424,13 @@ func C14(ctx *core.Ctx) {
 		checkSequence(ctx, r, "C14.R3", ssax.Name(se)+" › exception message", se, nil, steps, func(*ssa.Return) bool { return true })
 	}
 
+	if cc := LoadCC(ctx); cc.OK() {
+		c14WireNames(ctx, cc)
+	}
+	ctx.Rule("C14.R8", "a truncated request does not desynchronise the connection: the simple server's framed reader counts every byte it consumes, so the next request is decoded from its own frame", 1)
+	if rd := r.FnOpt("(*TFramedTransport).Read"); rd != nil {
+		framedReadAccounting(ctx, r, rd, "C14.R8")
+	}
 	// ---- R5 ---------------------------------------------------------------------
 	perMessageTransports(ctx, r, "C14.R5")
 	// handler closures run concurrently, once per message: they must not write storage captured from the enclosing function
@@ -532,6 +539,123 @@ func perMessageTransports(ctx *core.Ctx, r *RT, rule string) {
 			}
 			ctx.Check(fresh, rule, ssax.Name(fn)+sprintf(" › protocol transport #%d is per invocation", callOrdinal(fn, c)), r.IPos(c.Instr),
 				"transport allocated in this invocation", detail)
+		}
+	}
+}
+
+// c14WireNames — C14.R9. The generated processor registers a method under
+// LowercaseFirstLetter(name), the generated client sends and checks that
+// spelling, and every reply — REPLY or EXCEPTION — must carry it: the client
+// rejects anything else with "wrong method name". In the Go generator, the
+// method-name argument (%q) of every emitted SendError / SendReply /
+// Client_().Call / Oneway / AddToProcessorMap is derived from
+// parser.LowercaseFirstLetter, never the raw method.Name.
+func c14WireNames(ctx *core.Ctx, cc *CC) {
+	ctx.Rule("C14.R9", "one wire name per method: every emitted reply, request and registration of the Go generator names the method through LowercaseFirstLetter", 6)
+	gp := cc.Pkg("golang")
+	if gp == nil {
+		ctx.Unresolved("C14.R9", "golang generator", "package not loaded")
+		return
+	}
+	markers := []string{"p.SendError(", "p.SendReply(", "Client_().Call(", "Client_().Oneway(", "AddToProcessorMap("}
+	lowered := func(fn *ssa.Function, v ssa.Value) bool {
+		ok := false
+		ssax.Instrs(fn, func(in ssa.Instruction) {
+			if c, isC := ssax.AsCall(in); isC && c.ShortName() == "LowercaseFirstLetter" {
+				if cv, isV := in.(ssa.Value); isV && dependsOn(v, cv, 0) {
+					ok = true
+				}
+			}
+		})
+		return ok
+	}
+	n := 0
+	for _, fn := range cc.Fns {
+		if fn.Pkg != gp {
+			continue
+		}
+		for _, c := range ssax.Calls(fn) {
+			if c.FullName() != "fmt.Sprintf" || len(c.Args()) < 2 {
+				continue
+			}
+			format, isS := ConstString(c.Args()[0])
+			if !isS {
+				continue
+			}
+			hit := ""
+			for _, m := range markers {
+				if strings.Contains(format, m) {
+					hit = m
+				}
+			}
+			if hit == "" || !strings.Contains(format, "%q") {
+				continue
+			}
+			// which variadic element feeds the first %q after the marker
+			idx := 0
+			pos := strings.Index(format, hit)
+			for i := 0; i+1 < len(format); i++ {
+				if format[i] != '%' {
+					continue
+				}
+				if format[i+1] == '%' {
+					i++
+					continue
+				}
+				if i > pos && format[i+1] == 'q' {
+					break
+				}
+				idx++
+				i++
+			}
+			// the variadic slice: stores into the backing array
+			var elem ssa.Value
+			if sl, isSl := ssax.Strip(c.Args()[1]).(*ssa.Slice); isSl {
+				if al, isAl := sl.X.(*ssa.Alloc); isAl {
+					for _, u := range *al.Referrers() {
+						ia, isIA := u.(*ssa.IndexAddr)
+						if !isIA {
+							continue
+						}
+						if k, isK := ssax.ConstInt(ia.Index); isK && int(k) == idx {
+							for _, u2 := range *ia.Referrers() {
+								if st, isSt := u2.(*ssa.Store); isSt && st.Addr == ssa.Value(ia) {
+									elem = st.Val
+								}
+							}
+						}
+					}
+				}
+			}
+			if elem == nil {
+				continue
+			}
+			n++
+			ok := lowered(fn, elem)
+			if !ok {
+				// a helper handed the lowered name by every caller
+				if q, isP := ssax.Unbox(ssax.Strip(elem)).(*ssa.Parameter); isP {
+					all, any := true, false
+					for _, caller := range cc.Fns {
+						for _, c2 := range ssax.Calls(caller) {
+							if c2.Static != fn {
+								continue
+							}
+							for i, gp2 := range fn.Params {
+								if gp2 == q && i < len(c2.Common.Args) {
+									any = true
+									if !lowered(caller, c2.Common.Args[i]) {
+										all = false
+									}
+								}
+							}
+						}
+					}
+					ok = any && all
+				}
+			}
+			ctx.Check(ok, "C14.R9", QName(fn)+sprintf(" › %s… #%d names the method by its wire name", strings.TrimSuffix(hit, "("), n), cc.IPos(c.Instr), "the %q argument derives from parser.LowercaseFirstLetter",
+				"the method name emitted here is not the lower-cased wire name (e.g. the raw method.Name): for a method whose IDL name starts with an upper-case letter this message is written under another name than the one the request, the registration and the other replies use, and the client rejects it with 'wrong method name'")
 		}
 	}
 }
